@@ -15,7 +15,8 @@ package executor
 
 //@ func (e *Executor) IsActionPaused(ctx, id) (paused, err)
 //@   requires[base] e != nil
-//@   ensures[C09] err == nil ==> paused == actionPaused(e, id)
+//@   ensures[C09,C17,C17c] err == nil ==> paused == actionPaused(e, id)
+//@   ensures[C17,C17c] err == nil                      // (A-COLL-OK)
 
 //@ func (e *Executor) SetPausedAction(ctx, id) (err)
 //@   requires[base] e != nil
@@ -23,6 +24,26 @@ package executor
 //@   ensures[C09] err == nil ==> !old(actionPaused(e, id)) && actionSetIs(e, id, true)
 //@   ensures[C09] err != nil ==> ks_i32 == old(ks_i32)
 //@   ensures[C09] old(actionPaused(e, id)) ==> err != nil
+//   C17 (A-COLL-OK): pausing a supported action that is not paused succeeds
+//@   ensures[C17,C17c] err == nil ==> !old(actionPaused(e, id)) && actionSetIs(e, id, true)
+//@   ensures[C17,C17c] err != nil ==> ks_i32 == old(ks_i32)
+//@   ensures[C17,C17c] okAction(id) && !old(actionPaused(e, id)) ==> err == nil
+
+// Genesis (C17): on a store without paused actions, a valid genesis initialises without error and
+// afterwards exactly the listed actions are paused; no other collection is touched.
+//@ macro noActionPaused(e) = forall k int :: !ks_i32[e.PausedActions][k]
+//@ func (e *Executor) InitGenesis(ctx, g) (err)
+//@   requires[inv] e != nil
+//@   modifies ks_i32
+//@   requires[C17,C17c] noActionPaused(e)
+//@   loop 0 invariant[C17] forall j int :: 0 <= j && j < idx ==> ks_i32[e.PausedActions][g.PausedActionIds[j]]
+//@   loop 0 invariant[C17c] forall k int trigger(ks_i32[e.PausedActions][k]) :: (forall j int :: 0 <= j && j < idx ==> g.PausedActionIds[j] != k) ==> !ks_i32[e.PausedActions][k]
+//@   loop 0 invariant[C17] forall c int :: c != e.PausedActions ==> ks_i32[c] == old(ks_i32[c])
+//@   ensures[C17c] execGenesisOK(g) ==> err == nil
+//@   ensures[C17] err == nil ==> execGenesisOK(g)
+//@   ensures[C17] err == nil ==> forall j int :: 0 <= j && j < len(g.PausedActionIds) ==> ks_i32[e.PausedActions][g.PausedActionIds[j]]
+//@   ensures[C17c] err == nil ==> forall k int trigger(ks_i32[e.PausedActions][k]) :: (forall j int :: 0 <= j && j < len(g.PausedActionIds) ==> g.PausedActionIds[j] != k) ==> !ks_i32[e.PausedActions][k]
+//@   ensures[C17] forall c int :: c != e.PausedActions ==> ks_i32[c] == old(ks_i32[c])
 
 //@ func (e *Executor) SetUnpausedAction(ctx, id) (err)
 //@   requires[base] e != nil
